@@ -617,6 +617,11 @@ class SymEval:
             return self.global_value(q)
         base = self.eval(node.value, env)
         a = node.attr
+        if self.hooks is not None and hasattr(self.hooks, 'attr') and \
+                not isinstance(base, (Obj, Rec, SArray, Rat, int, float, ClassInfo)):
+            v = self.hooks.attr(self, base, a, node)
+            if v is not None:
+                return v
         if isinstance(base, Obj):
             if a in base.attrs:
                 return base.attrs[a]
@@ -1073,6 +1078,8 @@ class SymEval:
             return self.construct(callee, args, kwargs)
         if isinstance(callee, Opaque):
             return Opaque('call', callee, args)
+        if callable(callee) and not isinstance(callee, (Rat, SArray)):
+            return callee(*args, **kwargs)
         raise Unsupported('call of %r' % (callee,))
 
     def construct(self, cls, args, kwargs):
